@@ -34,7 +34,9 @@ fn strat_years(t: Tier) -> BoxedStrategy<Case> {
     (lgen::ledger_strategy(cfg), 0u8..4, any::<u16>()).prop_map(|(gl, cfg_mode, salt)| Case { gl, cfg_mode, salt }).boxed()
 }
 fn strat_wide(t: Tier) -> BoxedStrategy<Case> {
-    let cfg = GenCfg::basic().secs(3).days(3, t.pick(16, 30)).events(true).dividends(true);
+    // shuffled lines: several sales of one security on a day end up separated by other
+    // securities' lines, which must still give one disposal per (security, day)
+    let cfg = GenCfg::basic().secs(3).days(3, t.pick(16, 30)).events(true).dividends(true).shuffle(true);
     (lgen::ledger_strategy(cfg), 0u8..3, any::<u16>()).prop_map(|(gl, cfg_mode, salt)| Case { gl, cfg_mode, salt }).boxed()
 }
 
@@ -218,6 +220,20 @@ pub fn check(c: &Case, obs: &mut Obs) -> Verdict {
         }
         if !tool::money_close(&(&tg - &tl), y.net_gain, obs) {
             vfail!("{sy}: net_gain {} but total gain - total loss = {}", y.net_gain, &tg - &tl);
+        }
+        // one disposal per (security, day) with a sale in this tax year, no more, no fewer
+        let mut sold_days: BTreeSet<(String, chrono::NaiveDate)> = BTreeSet::new();
+        for (tk, days) in &agg {
+            for dd in days {
+                if dd.n_sell > 0 && model::tax_year_of(dd.date) == sy {
+                    sold_days.insert((tk.clone(), dd.date));
+                }
+            }
+        }
+        let listed: Vec<(String, chrono::NaiveDate)> = y.disposals.iter().map(|d| (d.ticker.clone(), d.date)).collect();
+        let listed_set: BTreeSet<(String, chrono::NaiveDate)> = listed.iter().cloned().collect();
+        if listed.len() != listed_set.len() || listed_set != sold_days {
+            vfail!("{sy}: disposals listed {listed:?} but the (security, day) pairs with sales are {sold_days:?}\n{}", crate::led::to_dsl(ledger));
         }
         if y.disposal_count() != y.disposals.len() {
             vfail!("{sy}: disposal_count {} but {} disposals", y.disposal_count(), y.disposals.len());
